@@ -228,6 +228,9 @@ func TestC06_HandlePktReplay(t *testing.T) {
 		case p.Want == "" && !v2 && vkKnown("F-C06-3"):
 			outcome = "withheld(known F-C06-3)"
 			vkExcluded("C06.handlepkt", "F-C06-3")
+		case p.NoExt && vkKnown("F-C06-4"):
+			outcome = "withheld(known F-C06-4)"
+			vkExcluded("C06.handlepkt", "F-C06-4")
 		default:
 			rt.Fatalf("WITHHELD: the flight is complete after datagram %d (name carried %q, version %#x) but only %d of %d datagrams reached the relay",
 				completeAt, p.Want, p.Version, relayed, len(p.Datagrams))
